@@ -104,7 +104,31 @@ def parser_constants(repo):
     return "\n".join(lines)
 
 
-EXTRACTORS = {"parser_constants": parser_constants}
+def parser_zom_lookahead(repo):
+    """The zero-or-more arms of `fn wildcard` in src/token/parse.rs: each arm is
+    `error::context("zero-or-more", ... bytes::tag("<T>") ... bytes::is_not("<S>") ...)`: T is the spelling of
+    a zero-or-more wildcard, S the characters that may NOT follow it (the parser's own adjacency rule)."""
+    text = (repo / "src" / "token" / "parse.rs").read_text()
+    body = _fn_body(text, "wildcard")
+    arms = re.findall(r'"zero-or-more",.*?bytes::tag\("((?:[^"\\]|\\.)*)"\).*?bytes::is_not\("((?:[^"\\]|\\.)*)"\)', body, re.S)
+    if not arms or len(arms) != body.count('"zero-or-more"'):
+        raise Undecided("anchor lost: zero-or-more arms of fn wildcard (tag + is_not look-ahead)")
+    tags, lines = [], ["// ---- extracted from fn wildcard of src/token/parse.rs on this run (tools/vextract.py) ----"]
+    for i, (tag, stop) in enumerate(arms):
+        tag, stop = _unescape_rust(tag), _unescape_rust(stop)
+        if len(tag) != 1:
+            raise Undecided("a zero-or-more spelling is not a single character")
+        tags.append(tag[0])
+        pat = " | ".join(rust_char(c) for c in stop) if stop else "'\\u{10FFFF}' if false"
+        lines.append(f"pub(crate) fn zom_arm{i}_excludes(c: char) -> bool {{ matches!(c, {pat}) }}")
+    lines.append(f"pub(crate) fn zom_tag_contains(c: char) -> bool {{ matches!(c, {' | '.join(rust_char(c) for c in tags)}) }}")
+    lines.append("pub(crate) fn zom_every_arm_excludes(c: char) -> bool { " + " && ".join(f"zom_arm{i}_excludes(c)" for i in range(len(arms))) + " }")
+    lines.append(f"pub(crate) const ZOM_ARMS: usize = {len(arms)};")
+    lines.append("// ---- end of extracted constants ----")
+    return "\n".join(lines)
+
+
+EXTRACTORS = {"parser_constants": parser_constants, "parser_zom_lookahead": parser_zom_lookahead}
 
 
 # ------------------------------------------------------------------------------------------------
